@@ -113,7 +113,9 @@ def plan(case, rseed, force=None):
             ref_targets.add(D[0])
             names[c] = None
         else:
-            edges[c] = [(t, "member") for t in D]
+            # a union's members; the trailing entries may instead be DECLARED dependencies of the union class (_depends_on)
+            nm = len(D) if rng.random() < 0.6 else rng.randint(1, len(D))
+            edges[c] = [(t, "member" if x < nm else "declared") for x, t in enumerate(D)]
             names[c] = base[c]
     return dict(kinds=kinds, edges=edges, names=names, order=order, nodes=nodes, base=base, rseed=rseed)
 
@@ -180,9 +182,12 @@ def build(case, pl):
             names[c] = obj[c].__name__
         elif k == "union":
             if all(t in obj for t, _ in edges[c]):
-                obj[c] = MetaUnionRef(names[c], (xo.UnionRef,), {"_reftypes": [obj[t] for t, _ in edges[c]]})
+                data = {"_reftypes": [obj[t] for t, ek in edges[c] if ek == "member"]}
+                if any(ek == "declared" for _, ek in edges[c]):
+                    data["_depends_on"] = [obj[t] for t, ek in edges[c] if ek == "declared"]
+                obj[c] = MetaUnionRef(names[c], (xo.UnionRef,), data)
             else:
-                obj[c] = MetaUnionRef(names[c], (xo.UnionRef,), {"_reftypes": []})
+                obj[c] = MetaUnionRef(names[c], (xo.UnionRef,), {"_reftypes": [], "_depends_on": []})
                 late.append(c)
         used_names.add(names[c])
     # edges that can only exist through mutation after class creation (this is also how cycles arise)
@@ -191,7 +196,8 @@ def build(case, pl):
             decl = [t for t, ek in edges[c] if ek == "declared"]
             obj[c]._depends_on.extend(obj[t] for t in decl[len(inbody.get(c, [])):])
         else:
-            obj[c]._reftypes.extend(obj[t] for t, _ in edges[c])
+            obj[c]._reftypes.extend(obj[t] for t, ek in edges[c] if ek == "member")
+            obj[c]._depends_on.extend(obj[t] for t, ek in edges[c] if ek == "declared")
     # what _depends_on is for: extra C sources of a class that use the API of the classes it depends on
     for c in pl["order"]:
         if kinds[c] in ("struct", "hybrid"):
@@ -207,7 +213,7 @@ def build(case, pl):
     for c in pl["order"]:
         o, k = obj[c], kinds[c]
         real = ([f.ftype for f in o._fields] + list(o._depends_on) if k in ("struct", "hybrid") else [o._itemtype] if k == "array"
-                else [o._reftype] if k == "ref" else list(o._reftypes) if k == "union" else list(o._depends_on) if k == "duck" else [])
+                else [o._reftype] if k == "ref" else list(o._reftypes) + list(getattr(o, "_depends_on", [])) if k == "union" else list(o._depends_on) if k == "duck" else [])
         # (a hybrid class is declared with the hybrid classes of its targets; swapping in their structs is the library's job and under test)
         if len(real) != len(edges[c]) or any(r is not obj[t] and not (k == "hybrid" and r is hyb.get(t)) for r, (t, _) in zip(real, edges[c])):
             raise C.MachineryError(f"harness: class {c} ({k}) was not built with the planned edges {edges[c]}: {real}")
